@@ -262,6 +262,96 @@ def _steps(njobs: int, nworkers: int) -> int:
     return 2 * out + 20  # preempted runs take more steps (loops poll more often): generous bound, checked per run
 
 
+# --------------------------------------------------------------------------------------------- E (enqueue atomicity)
+def run_enqueue_race(k: int, record: Dict[str, Any]):
+    """The caller of enqueue() is a real thread under the line scheduler (preemption points: the lines of
+    QueueSemantivaOrchestrator.enqueue); after its k-th line everything else -- master publishes, worker executes, master
+    collects -- runs to quiescence while the caller is parked, then the caller resumes.  Whatever k, the returned Future
+    must complete with the job's own result."""
+    from semantiva.context_processors import ContextType
+    from semantiva.execution.executor.executor import SequentialSemantivaExecutor
+    from semantiva.execution.job_queue.queue_orchestrator import QueueSemantivaOrchestrator
+    from semantiva.execution.job_queue.worker import worker_loop
+    from semantiva.execution.transport import InMemorySemantivaTransport
+    from vt import lib
+    from vt.linesched import HarnessStall, LineScheduler
+
+    lib.register()
+    tr = InMemorySemantivaTransport()
+    master = QueueSemantivaOrchestrator(tr, stop_event=_Stop(2), logger=lib.QUIET)
+    master.job_queue = _Q()
+    pc = _job_pipelines()[0]
+    box: Dict[str, Any] = {}
+
+    def client():
+        box["fut"] = master.enqueue([dict(n) for n in pc], data=lib.IntData(100), context=ContextType({"tag": 5}), return_future=True, registry_profile=None)
+
+    def others():
+        master.stop_event = _Stop(2)
+        master.run_forever()
+        worker_loop(0, tr, SequentialSemantivaExecutor(), _Stop(2), logger=lib.QUIET, poll_interval=0.0)
+        master.stop_event = _Stop(3)
+        master.run_forever()
+
+    ls = LineScheduler(("semantiva/execution/job_queue/queue_orchestrator.py::enqueue",), reduce_local=False)
+    ls.add(client)
+    try:
+        ls.start()
+        steps = 0
+        while ls.enabled():
+            if steps == k:
+                others()
+            ls.step(0)
+            steps += 1
+    except HarnessStall:
+        ls.abort()
+        raise
+    record["client_steps"] = steps
+    record["lines"] = list(ls.trace_log)
+    others()  # final drain
+    fut = box.get("fut")
+    if fut is None:
+        return Fail("C15.E:no-future", "enqueue(return_future=True) returned no Future")
+    if not fut.done():
+        return Fail("C15.E:future-never-completes", "the caller of enqueue() was descheduled after %d of its %d lines while master and worker handled the job: the Future is pending for good (status consumed before the Future was registered)" % (k, steps))
+    data, ctx = fut.result()
+    exp = _direct(pc, 100, 5)
+    got = ctx.to_dict()
+    got.pop("job_id", None)
+    if data.data != exp[1] or got != exp[2]:
+        return Fail("C15.E:wrong-result", "job got %r/%r, its own result is %r/%r" % (data.data, got, exp[1], exp[2]))
+    return True
+
+
+def _make_e(param):
+    nlines = param
+
+    def body(k: int):
+        from crosshair.tracers import NoTracing
+        from vt.engine import assume
+
+        assume(0 <= k <= nlines)
+        ck = next(i for i in range(nlines + 1) if k == i)
+        with NoTracing():
+            rec: Dict[str, Any] = {}
+            v = run_enqueue_race(ck, rec)
+            if v is True and rec.get("client_steps", 0) > nlines:
+                return Fail("C15.E:harness-step-bound", "enqueue took %d line steps, bound %d" % (rec["client_steps"], nlines))
+            return v
+
+    return body
+
+
+def _replay_e(param, a):
+    return C04._wrap(run_enqueue_race(a["k"], {}))
+
+
+def _enqueue_lines() -> int:
+    rec: Dict[str, Any] = {}
+    run_enqueue_race(-1, rec)
+    return rec["client_steps"] + 2
+
+
 def obligations(tier: str) -> List[Ob]:
     big = tier == "thorough"
     obs = [
@@ -271,6 +361,9 @@ def obligations(tier: str) -> List[Ob]:
         Ob("C15.P2", _make_p, _replay_p, params=[(1, True), (2, True), (3, True)], budget=900, per_path=120,
            bound="as P1 with one failing job at a symbolic batch position", targets=["semantiva/execution/job_queue/worker.py:worker_loop"], stubs=list(STUBS)),
     ]
+    obs.append(Ob("C15.E", _make_e, _replay_e, params=[_enqueue_lines()], budget=600, per_path=120,
+                  bound="the caller of enqueue() parked after its k-th line (k symbolic over all line events of enqueue, measured from the source) while master and worker handle the job to quiescence, then resumed; 1 job",
+                  targets=["semantiva/execution/job_queue/queue_orchestrator.py:QueueSemantivaOrchestrator.enqueue", "semantiva/execution/job_queue/queue_orchestrator.py:QueueSemantivaOrchestrator.run_forever", "semantiva/execution/job_queue/worker.py:worker_loop"]))
     shapes_ = [(1, 1), (2, 1)] + ([(1, 2), (2, 2)] if big else [])
     P = 1 if not big else 2
     sp = []
